@@ -46,7 +46,16 @@ CHAINS = [
     ("SAMI->DFXP->SAMI", [(SAMIWriter, SAMIReader, (2, "")), (DFXPWriter, DFXPReader, None), (SAMIWriter, SAMIReader, None)],
      (True, False, False)),
 ]
-CHAIN_MODEL = {"DFXP->SAMI->DFXP": 0, "SAMI->DFXP->SAMI": 1}
+CHAINS.append(("singleDFXP->SAMI->singleDFXP", [(SinglePositioningDFXPWriter, DFXPReader, (0, ' region="bottom"')), (SAMIWriter, SAMIReader, None),
+                                               (SinglePositioningDFXPWriter, DFXPReader, None)], (True, False, False)))
+# chain name -> (which, extra1, extra2) of request 1110 (audit w7: the region="bottom" legs of the chain theorems are executed too)
+CHAIN_MODEL = {"DFXP->SAMI->DFXP": (0, "", ""), "SAMI->DFXP->SAMI": (1, "", ""),
+               "singleDFXP->SAMI->singleDFXP": (0, ' region="bottom"', ' region="bottom"')}
+
+
+def in_chain_domain(spec):
+    """the chain / closure theorems' domain: dictionaries without colour, texts without CR / LF (flat balance is asserted above)"""
+    return all((n[0] != "s" or n[5] is None) and (n[0] != "t" or ("\n" not in n[1] and "\r" not in n[1])) for n in spec)
 
 
 def canon(caption):
@@ -114,6 +123,18 @@ def span_trace(payload):
     return [m.group(1) == "" for m in SPAN_RE.finditer(payload)]
 
 
+def model_nodes_py(m):
+    out = []
+    for n in m:
+        if n[0] == 1:
+            out.append(("t", n[1]))
+        elif n[0] == 3:
+            out.append(("b",))
+        else:
+            out.append(("s", bool(n[1]), bool(n[2]), bool(n[3]), bool(n[4]), None if n[5] == [] else n[5][0]))
+    return out
+
+
 def run_chains(ctx, res, nsets):
     rng = ctx.rng
     viol = res["violations"]
@@ -164,8 +185,18 @@ def run_chains(ctx, res, nsets):
                 continue
             reqs = [(1102, [list(mask), G.wire_nodes(a), G.wire_nodes(o)]) for a, o in zip(specs, final)]
             reqs += [(1100, G.wire_nodes(o)) for o in final]
+            reqs += [(1101, G.wire_nodes(o)) for o in final]
             outs = oracle_batch(reqs)
             n = len(specs)
+            # audit w7: CLOSURE on REAL reader output - flat_balanced (end node repeats its start node, no nesting) for in-domain
+            # captions (theorems C11_*_roundtrip_closed): a failure is a model / implementation disagreement
+            for i in range(n):
+                if in_chain_domain(specs[i]):
+                    key = "closure_real_output_flat_balanced" if outs[2 * n + i] == 1 else "closure_real_output_NOT_flat_balanced"
+                    res["distribution"][key] = res["distribution"].get(key, 0) + 1
+                    if outs[2 * n + i] != 1 and len(res["disagreements"]) < 50:
+                        res["disagreements"].append({"fmt": name, "what": "real reader output is not flat_balanced on an in-domain caption "
+                                                     "(C11_*_roundtrip_closed say the reader MODEL's is)", "nodes": specs[i], "impl": final[i]})
             for i in range(n):
                 if any(x[0] == "s" for x in specs[i]):
                     res["nontrivial"].add((name, repr(specs[i])))
@@ -178,11 +209,24 @@ def run_chains(ctx, res, nsets):
             # wave 7: the model chain (writer model -> strict parser -> reader model, three times) beside the real chain:
             # the italic flags of every visible character at the end must agree (a difference = broken tie)
             if name in CHAIN_MODEL:
-                ms = oracle_batch([(1110, [CHAIN_MODEL[name], "", "", G.wire_nodes(a)]) for a in specs])
-                have = [(m[0], o) for m, o in zip(ms, final) if m != []]
-                res["distribution"]["chain_model_undefined"] = res["distribution"].get("chain_model_undefined", 0) + (len(ms) - len(have))
-                cmp_ = oracle_batch([(1102, [[True, False, False], m, G.wire_nodes(o)]) for m, o in have])
-                for (m, o), r, a in zip(have, cmp_, specs):
+                cm = CHAIN_MODEL[name]
+                ms = oracle_batch([(1110, [cm[0], cm[1], cm[2], G.wire_nodes(a)]) for a in specs])
+                for m, a in zip(ms, specs):
+                    if m == []:
+                        key = "chain_model_undefined_in_domain" if in_chain_domain(a) else "chain_model_undefined_outside_domain"
+                        res["distribution"][key] = res["distribution"].get(key, 0) + 1
+                        if in_chain_domain(a) and len(res["disagreements"]) < 50:
+                            res["disagreements"].append({"fmt": name, "what": "the model chain is undefined on an in-domain caption "
+                                                         "(instance of C11_chain_*)", "nodes": a})
+                trip = [(m[0], o, a) for m, o, a in zip(ms, final, specs) if m != []]
+                have = [(m, o) for m, o, _ in trip]
+                # audit w7: ALL THREE flags of the final lists, model chain vs real chain (both lose b / u in a DFXP leg alike)
+                cmp_ = oracle_batch([(1102, [[True, True, True], m, G.wire_nodes(o)]) for m, o in have])
+                for (m, o), _a in zip(have, [t[2] for t in trip]):
+                    same = model_nodes_py(m) == list(o)
+                    key = "chain_model_nodes_literally_equal" if same else "chain_model_nodes_differ_literally"
+                    res["distribution"][key] = res["distribution"].get(key, 0) + 1
+                for (m, o), r, a in zip(have, cmp_, [t[2] for t in trip]):
                     key = "chain_model_flags_equal" if r == 1 else "chain_model_flags_differ"
                     res["distribution"][key] = res["distribution"].get(key, 0) + 1
                     if r != 1 and len(res["disagreements"]) < 50:
@@ -604,7 +648,7 @@ def run_zero_padding(ctx, res, n):
 def run(ctx):
     res = {"evaluations": 0, "nontrivial": set(), "violations": [], "disagreements": [], "distribution": {},
            "streams": 5, "notes": []}
-    run_chains(ctx, res, ctx.n(150, 4000))
+    run_chains(ctx, res, ctx.n(120, 4000))
     run_scc(ctx, res, ctx.n(150, 4000))
     run_nested(ctx, res, ctx.n(12, 300))
     run_zero_padding(ctx, res, ctx.n(14, 1200))
